@@ -1,6 +1,7 @@
 import Anndb.Drive.PQ
 import Anndb.Drive.Hnsw
 import Anndb.Drive.Partition
+import Anndb.Drive.Placement
 /-! `driver <engine>`: the executable Lean models behind a one-line-in, one-line-out protocol. -/
 def main (args : List String) : IO UInt32 := do
   let h ← IO.getStdin
@@ -9,4 +10,5 @@ def main (args : List String) : IO UInt32 := do
   | ["pq"] => Anndb.Drive.PQ.main h out; return 0
   | ["hnsw"] => Anndb.Drive.Hnsw.main h out; return 0
   | ["partition"] => Anndb.Drive.Partition.main h out; return 0
+  | ["placement"] => Anndb.Drive.Placement.main h out; return 0
   | _ => IO.eprintln "usage: driver <engine>"; return 2
